@@ -215,6 +215,9 @@ int snoopy_configfile_parseValue_filter_chain (
     const char *confValString,
     snoopy_configuration_t* CFG
 ) {
+    if (SNOOPY_TRUE == CFG->filter_chain_malloced) {
+        free(CFG->filter_chain);
+    }
     CFG->filter_chain          = strdup(confValString);
     CFG->filter_chain_malloced = SNOOPY_TRUE;
 
@@ -248,6 +251,9 @@ int snoopy_configfile_parseValue_message_format (
     const char *confValString,
     snoopy_configuration_t* CFG
 ) {
+    if (SNOOPY_TRUE == CFG->message_format_malloced) {
+        free(CFG->message_format);
+    }
     CFG->message_format          = strdup(confValString);
     CFG->message_format_malloced = SNOOPY_TRUE;
 
@@ -288,6 +294,16 @@ int snoopy_configfile_parseValue_output (
 
     // First clone the config value, as it gets freed by ini parsing library
     confVal = strdup(confValString);
+
+    // Forget the previously configured output (if any)
+    if (SNOOPY_TRUE == CFG->output_malloced) {
+        free(CFG->output);
+        CFG->output_malloced = SNOOPY_FALSE;
+    }
+    if (SNOOPY_TRUE == CFG->output_arg_malloced) {
+        free(CFG->output_arg);
+        CFG->output_arg_malloced = SNOOPY_FALSE;
+    }
 
     // Check if configured value contains argument(s)
     colonPtr = strchr(confVal, ':');
@@ -420,6 +436,9 @@ int snoopy_configfile_parseValue_syslog_ident (
     const char *confValString,
     snoopy_configuration_t* CFG
 ) {
+    if (SNOOPY_TRUE == CFG->syslog_ident_format_malloced) {
+        free(CFG->syslog_ident_format);
+    }
     CFG->syslog_ident_format          = strdup(confValString);
     CFG->syslog_ident_format_malloced = SNOOPY_TRUE;
 
